@@ -33,7 +33,7 @@ CONSTANT Deviations     \* "DecideC07": take TeX's side where a finding of C07 s
 PrimNames == << "def", "gdef", "global", "let", "count", "countdef", "chardef", "advance",
                 "multiply", "divide", "the", "relax", "expandafter", "noexpand", "iftrue",
                 "iffalse", "ifnum", "ifodd", "ifcase", "or", "else", "fi", "globaldefs",
-                "long", "outer", "toks", "toksdef" >>
+                "long", "outer", "toks", "toksdef", "catcode", "endlinechar" >>
 NPrim  == Len(PrimNames)
 NNames == NPrim + 10         \* eight user control sequences and two active characters follow the primitives
                              \* (an active character is a name like any other: TeX 222 eqtb layout)
@@ -46,7 +46,7 @@ P_def == 1  P_gdef == 2  P_global == 3  P_let == 4  P_count == 5  P_countdef == 
 P_advance == 8  P_multiply == 9  P_divide == 10  P_the == 11  P_relax == 12  P_expandafter == 13
 P_noexpand == 14  P_iftrue == 15  P_iffalse == 16  P_ifnum == 17  P_ifodd == 18  P_ifcase == 19
 P_or == 20  P_else == 21  P_fi == 22  P_globaldefs == 23  P_long == 24  P_outer == 25
-P_toks == 26  P_toksdef == 27
+P_toks == 26  P_toksdef == 27  P_catcode == 28  P_endlinechar == 29
 
 \* ---------------------------------------------------------------------------------------------
 \* tokens and meanings (uniform records: TLC cannot compare records of different shape)
@@ -65,6 +65,17 @@ KindOf(n) == CASE n = 1 -> "ch" [] n = 2 -> "sp" [] n = 3 -> "lb" [] n = 4 -> "r
 TokAlias(t) == [m |-> "tok", a |-> KindNo(t.k), b |-> t.v]   \* \let\a=<character token>
 
 \* ---------------------------------------------------------------------------------------------
+\* category codes: texlang's initial table (types/catcode.rs PLAIN_TEX_DEFAULTS) with ~ and ! active, as the
+\* harness's prelude leaves it
+DefaultCatOf(c) == IF (c \in 65..90) \/ (c \in 97..122) THEN 11
+                   ELSE CASE c = 0 -> 9 [] c = 9 -> 10 [] c = 10 -> 5 [] c = 12 -> 13 [] c = 13 -> 5 [] c = 32 -> 10
+                          [] c = 35 -> 6 [] c = 36 -> 3 [] c = 37 -> 14 [] c = 38 -> 4 [] c = 92 -> 0 [] c = 94 -> 7
+                          [] c = 95 -> 8 [] c = 123 -> 1 [] c = 125 -> 2 [] c = 126 -> 13 [] c = 127 -> 15
+                          [] c = 33 -> 13 [] OTHER -> 12
+PreludeCat == [i \in 1..128 |-> << i - 1, DefaultCatOf(i - 1) >>]
+NoSource == [lines |-> << >>, toks |-> << >>, post |-> << >>, lx0 |-> 0, done |-> FALSE]
+
+\* ---------------------------------------------------------------------------------------------
 \* the state
 InitMean == [n \in 1..NNames |-> IF n <= NPrim THEN Prim(n) ELSE Undef]
 InitState(prog, fuel) ==
@@ -73,10 +84,15 @@ InitState(prog, fuel) ==
     cnt   |-> [r \in 0..(NReg - 1) |-> 0],   \* count registers
     gd    |-> 0,                             \* \globaldefs
     tks   |-> [r \in 0..(NTok - 1) |-> << >>], \* token list registers
-    saves |-> << >>,                         \* one [mean, cnt, gd, tks] per open group
+    saves |-> << >>,                         \* one [mean, cnt, gd, tks, cat, elc] per open group
     conds |-> << >>,                         \* open conditionals: [c |-> "if"|"case", br |-> "then"|"else"]
     mac   |-> << >>,                         \* macro table, append only: [par, body]
     out   |-> << >>,                         \* delivered: character codes; -(name) for an unexpanded expandable
+    cat   |-> PreludeCat,                    \* category codes (assignable, saved by groups): <<char, code>> pairs
+    elc   |-> -1,                            \* \endlinechar (the token-level programs run with -1)
+    lex   |-> NoSource,                      \* the file being read (see "the lexer in the loop" below)
+    nsrc  |-> 0,                             \* how many tokens at the end of inp are unread tokens of the file
+    names |-> << >>,                         \* names met in the file that are not in NameCodes (interned in order)
     err   |-> "",  skip |-> "",  fuel |-> fuel ]
 
 Stopped(S) == S.err # "" \/ S.skip # ""
@@ -90,7 +106,7 @@ Tick(S) == IF S.fuel <= 0 THEN Skip(S, "skip-fuel")
 
 \* the name 0 is TeX's frozen \relax (TeX 379 insert_relax): a control sequence no definition can reach
 FrozenRelax == Tok("cs", 0)
-Mn(S, v) == IF v = 0 THEN Prim(P_relax) ELSE S.mean[v]
+Mn(S, v) == IF v = 0 THEN Prim(P_relax) ELSE IF v > NNames THEN Undef ELSE S.mean[v]
 MeanOf(S, t) == IF t.k = "cs" THEN Mn(S, t.v) ELSE TokAlias(t)
 IsPrimTok(S, t, p) == t.k = "cs" /\ Mn(S, t.v) = Prim(p)
 ExpandablePrims == {P_the, P_expandafter, P_noexpand, P_iftrue, P_iffalse, P_ifnum, P_ifodd, P_ifcase,
@@ -102,10 +118,15 @@ Expandable(S, t) == t.k = "cs" /\ (Mn(S, t.v).m = "macro" \/ (Mn(S, t.v).m = "pr
 Got(S, t, nx) == [s |-> S, t |-> t, nx |-> nx, none |-> FALSE]
 NoTok(S)      == [s |-> S, t |-> SP, nx |-> FALSE, none |-> TRUE]
 
-GetTok(S) == IF Stopped(S) \/ S.inp = << >> THEN NoTok(S)
+GetTok(S) == IF Stopped(S) THEN NoTok(S)
+             ELSE IF S.inp = << >> THEN NoTok([S EXCEPT !.lex.done = TRUE])   \* the request ran to the end of the file
+             ELSE IF Head(S.inp).k = "iv" THEN NoTok(Fail([S EXCEPT !.inp = Tail(@)], "invalid character"))
              ELSE Got([S EXCEPT !.inp = Tail(@)], Head(S.inp), FALSE)
-Back(S, t) == [S EXCEPT !.inp = << t >> \o @]
-BackSeq(S, ts) == [S EXCEPT !.inp = ts \o @]
+\* Tokens of the file that were not read yet form the end of inp (nsrc of them).  Reading only shortens inp, so
+\* the count is brought up to date wherever inp grows: whatever is put in front was read (or made) before.
+Unread(S) == IF S.nsrc < Len(S.inp) THEN S.nsrc ELSE Len(S.inp)
+Back(S, t) == [S EXCEPT !.nsrc = Unread(S), !.inp = << t >> \o @]
+BackSeq(S, ts) == [S EXCEPT !.nsrc = Unread(S), !.inp = ts \o @]
 
 \* ---------------------------------------------------------------------------------------------
 \* balanced text and macro arguments (TeX 391-399; the binding rule of TexMacro)
@@ -179,7 +200,7 @@ CallMacro(S, id) ==
        Skip(S, "skip-macro-prefix-mismatch")
   ELSE LET b == BindArgs(S.inp, Len(sp.pre) + 1, sp.dl, << >>) IN
        IF ~b.ok THEN (IF b.why = "eof in argument" THEN Fail(S, b.why) ELSE Skip(S, b.why))
-       ELSE [S EXCEPT !.inp = Subst(md.body, 1, b.args) \o SubSeq(S.inp, b.next, Len(S.inp))]
+       ELSE BackSeq([S EXCEPT !.inp = SubSeq(S.inp, b.next, Len(S.inp))], Subst(md.body, 1, b.args))
 
 \* ---------------------------------------------------------------------------------------------
 \* conditionals: skipping looks at the current meaning of every token, never expands (TeX 494)
@@ -236,7 +257,8 @@ EndBranch(S, p) ==
 
 \* ---------------------------------------------------------------------------------------------
 \* expansion and the scanners (mutually recursive, as in TeX)
-RECURSIVE GetX(_), GetXS(_), ExpandOnce(_, _), ScanInt(_), ScanDigits(_, _, _), ScanSigns(_, _), InternalInt(_, _), TokVar(_, _)
+RECURSIVE GetX(_), GetXS(_), ExpandOnce(_, _), ScanInt(_), ScanDigits(_, _, _), ScanSigns(_, _), InternalInt(_, _), TokVar(_, _),
+          AlphaConst(_, _)
 
 Digits(n) == LET RECURSIVE D(_) D(k) == IF k < 10 THEN << Tok("ch", 48 + k) >> ELSE D(k \div 10) \o << Tok("ch", 48 + (k % 10)) >>
              IN IF n < 0 THEN << Tok("ch", 45) >> \o D(-n) ELSE D(n)
@@ -252,6 +274,12 @@ InternalInt(S, t) ==
   ELSE IF mn.m = "cdef" THEN [ok |-> TRUE, s |-> S, v |-> S.cnt[mn.a]]
   ELSE IF mn.m = "chdef" THEN [ok |-> TRUE, s |-> S, v |-> mn.a]
   ELSE IF mn = Prim(P_globaldefs) THEN [ok |-> TRUE, s |-> S, v |-> S.gd]
+  ELSE IF mn = Prim(P_endlinechar) THEN [ok |-> TRUE, s |-> S, v |-> S.elc]
+  ELSE IF mn = Prim(P_catcode)
+  THEN LET r == ScanInt(S) IN
+       IF Stopped(r.s) THEN [ok |-> TRUE, s |-> r.s, v |-> 0]
+       ELSE IF r.v \notin 0..127 THEN [ok |-> TRUE, s |-> Skip(r.s, "skip-catcode-of-a-character-outside-model"), v |-> 0]
+       ELSE [ok |-> TRUE, s |-> r.s, v |-> r.s.cat[r.v + 1][2]]
   ELSE [ok |-> FALSE, s |-> S, v |-> 0]
 
 \* a token list variable named by token t (consumed; caller checked the meaning): [s, var]
@@ -382,7 +410,29 @@ ScanInt(S) ==
        IF iv.ok THEN [s |-> iv.s, v |-> IF g.nx THEN -iv.v ELSE iv.v]
        ELSE IF IsDigit(g.t)
             THEN LET d == ScanDigits(Back(g.s, g.t), 0, FALSE) IN [s |-> d.s, v |-> IF g.nx THEN -d.v ELSE d.v]
+            ELSE IF g.t.k = "ch" /\ g.t.v = 96 THEN AlphaConst(g.s, g.nx)
             ELSE [s |-> Fail(g.s, "missing number"), v |-> 0]
+
+\* TeX 442: ` and a character token or a control sequence whose name is one character; then one optional space.
+\* (texlang takes the token from the expanded stream - marked BUG in parse/integer.rs: an expandable token there
+\* is outside the model.)
+CharOfTok(S, t) ==
+  IF t.k = "cs" THEN (IF t.v = NNames - 1 THEN 126 ELSE IF t.v = NNames THEN 33
+                      ELSE IF t.v > 1000 /\ Len(S.names[t.v - 1000]) = 1
+                           THEN (LET c == S.names[t.v - 1000][1] IN IF c >= 256 THEN c - 256 ELSE c)
+                      ELSE -1)
+  ELSE IF t.k = "ch" THEN t.v % 1000 ELSE IF t.k = "sp" THEN 32
+  ELSE IF t.k = "lb" THEN (IF t.v = 0 THEN 123 ELSE t.v) ELSE IF t.k = "rb" THEN (IF t.v = 0 THEN 125 ELSE t.v)
+  ELSE IF t.k = "ha" THEN t.v ELSE -1
+AlphaConst(S, neg) ==
+  LET c == GetTok(S) IN
+  IF c.none THEN [s |-> Fail(c.s, "missing character: eof"), v |-> 0]
+  ELSE IF Expandable(c.s, c.t) THEN [s |-> Skip(c.s, "skip-expandable-after-backtick"), v |-> 0]
+  ELSE LET code == CharOfTok(c.s, c.t) IN
+       IF code < 0 THEN [s |-> Fail(c.s, "improper alphabetic constant"), v |-> 0]
+       ELSE LET x == GetXS(c.s)
+                Q == IF x.none \/ x.t.k = "sp" THEN x.s ELSE Back(x.s, x.t) IN
+            [s |-> Q, v |-> IF neg THEN -code ELSE code]
 
 \* TeX 405: optional spaces then an optional = (expanding)
 RECURSIVE OptEquals(_)
@@ -456,9 +506,27 @@ IntVar(S, t) ==
        ELSE [ok |-> TRUE, s |-> r.s, var |-> r.v]
   ELSE IF mn.m = "cdef" THEN [ok |-> TRUE, s |-> S, var |-> mn.a]
   ELSE IF mn = Prim(P_globaldefs) THEN [ok |-> TRUE, s |-> S, var |-> -1]
+  ELSE IF mn = Prim(P_endlinechar) THEN [ok |-> TRUE, s |-> S, var |-> -2]
+  ELSE IF mn = Prim(P_catcode)
+  THEN LET r == ScanInt(S) IN
+       IF Stopped(r.s) THEN [ok |-> TRUE, s |-> r.s, var |-> 0]
+       ELSE IF r.v \notin 0..127 THEN [ok |-> TRUE, s |-> Skip(r.s, "skip-catcode-of-a-character-outside-model"), var |-> 0]
+       ELSE [ok |-> TRUE, s |-> r.s, var |-> -(10 + r.v)]
   ELSE [ok |-> FALSE, s |-> S, var |-> 0]
-VarVal(S, var) == IF var = -1 THEN S.gd ELSE S.cnt[var]
-SetVar(S, var, v, glob) == IF var = -1 THEN SetGd(S, v, glob) ELSE SetCnt(S, var, v, glob)
+\* variables: 0..NReg-1 a count register, -1 \globaldefs, -2 \endlinechar, -(10+c) the category code of c
+VarVal(S, var) == IF var = -1 THEN S.gd ELSE IF var = -2 THEN S.elc
+                  ELSE IF var <= -10 THEN S.cat[-var - 9][2] ELSE S.cnt[var]
+SetElc(S, v, glob) ==
+  IF v > 127 \/ v < -Big THEN Skip(S, "skip-endlinechar-outside-model")
+  ELSE IF glob THEN [S EXCEPT !.elc = v, !.saves = [i \in 1..Len(S.saves) |-> [S.saves[i] EXCEPT !.elc = v]]]
+  ELSE [S EXCEPT !.elc = v]
+SetCat(S, c, v, glob) ==
+  IF v \notin 0..15 THEN Fail(S, "invalid category code")
+  ELSE IF glob THEN [S EXCEPT !.cat[c + 1] = << c, v >>,
+                              !.saves = [i \in 1..Len(S.saves) |-> [S.saves[i] EXCEPT !.cat[c + 1] = << c, v >>]]]
+  ELSE [S EXCEPT !.cat[c + 1] = << c, v >>]
+SetVar(S, var, v, glob) == IF var = -1 THEN SetGd(S, v, glob) ELSE IF var = -2 THEN SetElc(S, v, glob)
+                           ELSE IF var <= -10 THEN SetCat(S, -var - 10, v, glob) ELSE SetCnt(S, var, v, glob)
 
 \* <variable> [=] <int>   (the variable token t was consumed)
 AssignVar(S, t, glob) ==
@@ -472,6 +540,7 @@ AssignVar(S, t, glob) ==
 Arith(S, p, glob) ==
   LET x == GetXS(S) IN
   IF x.none THEN Fail(x.s, "arith: eof")
+  ELSE IF MeanOf(x.s, x.t) = Prim(P_catcode) THEN Fail(x.s, "arith: you can't use \\catcode after \\advance")   \* TeX 1237
   ELSE LET iv == IntVar(x.s, x.t) IN
        IF ~iv.ok THEN Fail(iv.s, "arith: not a variable")
        ELSE IF Stopped(iv.s) THEN iv.s
@@ -500,6 +569,7 @@ Target(S0) ==
              ELSE IF g.none THEN [ok |-> FALSE, s |-> Fail(g.s, "target: eof"), n |-> 0]
              ELSE IF g.t.k # "cs" THEN [ok |-> FALSE, s |-> Fail(g.s, "target: not a control sequence"), n |-> 0]
              ELSE IF g.t.v = 0 THEN [ok |-> FALSE, s |-> Skip(g.s, "skip-frozen-relax-as-target"), n |-> 0]
+             ELSE IF g.t.v > NNames THEN [ok |-> FALSE, s |-> Skip(g.s, "skip-target-outside-the-names-of-the-model"), n |-> 0]
              ELSE [ok |-> TRUE, s |-> g.s, n |-> g.t.v]
 
 \* TeX 474-479: in a parameter text # must be followed by the next parameter number; in a body # is
@@ -597,7 +667,8 @@ Exec(S, x, pfx) ==
   ELSE IF mn.m = "prim" /\ mn.a \in {P_countdef, P_chardef, P_toksdef}
   THEN RegDef(S, mn.a, pfx)
   ELSE IF mn = Prim(P_toks) \/ mn.m = "tdef" THEN AssignToks(S, t, pfx)
-  ELSE IF mn = Prim(P_count) \/ mn.m = "cdef" \/ mn = Prim(P_globaldefs) THEN AssignVar(S, t, pfx)
+  ELSE IF mn = Prim(P_count) \/ mn.m = "cdef" \/ mn \in {Prim(P_globaldefs), Prim(P_catcode), Prim(P_endlinechar)}
+  THEN AssignVar(S, t, pfx)
   ELSE IF mn.m = "prim" /\ mn.a \in {P_advance, P_multiply, P_divide} THEN Arith(S, mn.a, pfx)
   ELSE IF pfx THEN Fail(S, "prefix before a non-assignment")
   ELSE IF mn = Prim(P_relax) THEN S
@@ -606,23 +677,122 @@ Exec(S, x, pfx) ==
   ELSE IF mn.m = "tok"
   THEN \* a character token, or a \let alias of one (texlang puts the character back and reads it again)
        LET k == KindOf(mn.a) IN
-       IF k = "lb" THEN [S EXCEPT !.saves = Append(@, [mean |-> S.mean, cnt |-> S.cnt, gd |-> S.gd, tks |-> S.tks])]
+       IF k = "lb" THEN [S EXCEPT !.saves = Append(@, [mean |-> S.mean, cnt |-> S.cnt, gd |-> S.gd, tks |-> S.tks,
+                                                       cat |-> S.cat, elc |-> S.elc])]
        ELSE IF k = "rb"
             THEN (IF S.saves = << >> THEN Fail(S, "no group to end")
                   ELSE LET sv == S.saves[Len(S.saves)] IN
-                       [S EXCEPT !.mean = sv.mean, !.cnt = sv.cnt, !.gd = sv.gd, !.tks = sv.tks,
+                       [S EXCEPT !.mean = sv.mean, !.cnt = sv.cnt, !.gd = sv.gd, !.tks = sv.tks, !.cat = sv.cat, !.elc = sv.elc,
                                  !.saves = SubSeq(@, 1, Len(@) - 1)])
             ELSE IF k = "pm" THEN Fail(S, "internal: parameter token executed")
             ELSE IF k = "ha" THEN Skip(S, "skip-hash-executed")   \* TeX: an error; texlang typesets it
-            ELSE [S EXCEPT !.out = Append(@, mn.b)]
+            ELSE [S EXCEPT !.out = Append(@, mn.b % 1000)]     \* a character of an unusual category carries it in the thousands
   ELSE Fail(S, "internal: unknown meaning")
+
+\* ---------------------------------------------------------------------------------------------
+\* the lexer in the loop.  TeX reads the file one token at a time under the category codes of that moment
+\* (get_next, TeX 343-356) and the line end of the moment the line is loaded (TeX 360-362).  Here the rest of the
+\* file is turned into tokens ahead of time by the specification of the lexer that C03 binds to lexer.rs
+\* (TexLexer.tla, stepped one token at a time by LexTok) and every token remembers the lexer as it was just after
+\* it (post).  When an assignment or the end of a group changes a category code or \endlinechar, the tokens of
+\* the file that were not read yet are thrown away and the file is read again from the lexer state behind the
+\* last token that was read - tokens read before (a number's terminator that was put back) keep what they were.
+LXI == INSTANCE TexLexer WITH Deviations <- {}, Bug <- ""
+NameCodes == << <<100,101,102>>, <<103,100,101,102>>, <<103,108,111,98,97,108>>, <<108,101,116>>, <<99,111,117,110,116>>,
+                <<99,111,117,110,116,100,101,102>>, <<99,104,97,114,100,101,102>>, <<97,100,118,97,110,99,101>>,
+                <<109,117,108,116,105,112,108,121>>, <<100,105,118,105,100,101>>, <<116,104,101>>, <<114,101,108,97,120>>,
+                <<101,120,112,97,110,100,97,102,116,101,114>>, <<110,111,101,120,112,97,110,100>>, <<105,102,116,114,117,101>>,
+                <<105,102,102,97,108,115,101>>, <<105,102,110,117,109>>, <<105,102,111,100,100>>, <<105,102,99,97,115,101>>,
+                <<111,114>>, <<101,108,115,101>>, <<102,105>>, <<103,108,111,98,97,108,100,101,102,115>>, <<108,111,110,103>>,
+                <<111,117,116,101,114>>, <<116,111,107,115>>, <<116,111,107,115,100,101,102>>,
+                <<99,97,116,99,111,100,101>>, <<101,110,100,108,105,110,101,99,104,97,114>>,
+                <<118,97>>, <<118,98>>, <<118,99>>, <<118,100>>, <<118,101>>, <<118,102>>, <<118,103>>, <<118,104>> >>
+
+LS0 == [ln |-> 0, b |-> << >>, o |-> << >>, loc |-> 1, st |-> "N"]
+\* one token (or invalid-character event) from lexer state L: TexLexer!ScanLine, one step at a time
+RECURSIVE LexTok(_, _, _, _)
+LexTok(L, lines, tb, elc) ==
+  IF L.loc > Len(L.b)
+  THEN IF L.ln >= Len(lines) THEN [none |-> TRUE, ev |-> 0, ls |-> L]
+       ELSE LET bf == LXI!Buffer(lines[L.ln + 1], elc) IN
+            LexTok([ln |-> L.ln + 1, b |-> bf.b, o |-> bf.o, loc |-> 1, st |-> "N"], lines, tb, elc)
+  ELSE LET c == L.b[L.loc] cat == LXI!CatOf(tb, c) col == L.o[L.loc]
+           E == [L EXCEPT !.loc = Len(L.b) + 1]
+           N == [L EXCEPT !.loc = @ + 1] IN
+    CASE cat = 0 -> LET r == LXI!ScanName(tb, L.b, L.o, L.loc + 1) IN
+                    [none |-> FALSE, ev |-> LXI!Cs(r.name, L.ln, col),
+                     ls |-> [L EXCEPT !.b = r.b, !.o = r.o, !.loc = r.loc, !.st = r.st]]
+      [] cat = 5 -> IF L.st = "N" THEN [none |-> FALSE, ev |-> LXI!Cs(LXI!Par, L.ln, col), ls |-> E]
+                    ELSE IF L.st = "M" THEN [none |-> FALSE, ev |-> LXI!Tok(10, 32, L.ln, col), ls |-> E]
+                    ELSE LexTok(E, lines, tb, elc)
+      [] cat = 10 -> IF L.st = "M" THEN [none |-> FALSE, ev |-> LXI!Tok(10, 32, L.ln, col), ls |-> [N EXCEPT !.st = "S"]]
+                     ELSE LexTok(N, lines, tb, elc)
+      [] cat = 9 -> LexTok(N, lines, tb, elc)
+      [] cat = 14 -> LexTok(E, lines, tb, elc)
+      [] cat = 15 -> [none |-> FALSE, ev |-> [k |-> "invalid", cat |-> 15, ch |-> c, name |-> << >>, ln |-> L.ln, col |-> col], ls |-> N]
+      [] cat = 7 /\ LXI!Reducible(L.b, L.loc) ->
+           LET r == LXI!Reduce(L.b, L.o, L.loc) IN LexTok([L EXCEPT !.b = r.b, !.o = r.o], lines, tb, elc)
+      [] OTHER -> [none |-> FALSE, ev |-> LXI!Tok(cat, c, L.ln, col), ls |-> [N EXCEPT !.st = "M"]]
+
+\* the lexer's event as a token of this model; a name outside NameCodes is interned (1000 + its number)
+NaturalCat(c) == IF (c \in 65..90) \/ (c \in 97..122) THEN 11 ELSE 12
+ConvTok(names, ev) ==
+  IF ev.k # "tok" THEN [t |-> Tok("iv", ev.ch), names |-> names]
+  ELSE IF ev.cat = 13 /\ ev.ch = 126 THEN [t |-> Tok("cs", NNames - 1), names |-> names]
+  ELSE IF ev.cat = 13 /\ ev.ch = 33 THEN [t |-> Tok("cs", NNames), names |-> names]
+  ELSE IF ev.cat = 16 /\ (\E i \in 1..Len(NameCodes) : NameCodes[i] = ev.name)
+       THEN [t |-> Tok("cs", CHOOSE i \in 1..Len(NameCodes) : NameCodes[i] = ev.name), names |-> names]
+  ELSE IF ev.cat \in {13, 16}
+       THEN LET nm == IF ev.cat = 16 THEN ev.name ELSE << ev.ch + 256 >> IN
+            IF \E i \in 1..Len(names) : names[i] = nm
+            THEN [t |-> Tok("cs", 1000 + (CHOOSE i \in 1..Len(names) : names[i] = nm)), names |-> names]
+            ELSE [t |-> Tok("cs", 1000 + Len(names) + 1), names |-> Append(names, nm)]
+  ELSE IF ev.cat = 1 THEN [t |-> Tok("lb", IF ev.ch = 123 THEN 0 ELSE ev.ch), names |-> names]
+  ELSE IF ev.cat = 2 THEN [t |-> Tok("rb", IF ev.ch = 125 THEN 0 ELSE ev.ch), names |-> names]
+  ELSE IF ev.cat = 6 THEN [t |-> Tok("ha", ev.ch), names |-> names]
+  ELSE IF ev.cat = 10 THEN [t |-> SP, names |-> names]
+  ELSE [t |-> Tok("ch", IF ev.cat = NaturalCat(ev.ch) THEN ev.ch ELSE ev.ch + 1000 * ev.cat), names |-> names]
+
+RECURSIVE LexRest(_, _, _, _, _)
+LexRest(L, lines, tb, elc, names) ==
+  LET r == LexTok(L, lines, tb, elc) IN
+  IF r.none THEN [toks |-> << >>, post |-> << >>, names |-> names]
+  ELSE LET c == ConvTok(names, r.ev)
+           rest == LexRest(r.ls, lines, tb, elc, c.names) IN
+       [toks |-> << c.t >> \o rest.toks, post |-> << r.ls >> \o rest.post, names |-> rest.names]
+
+\* read the file from lexer state `base` under the category codes and line end of S; the unread tokens are replaced
+Fill(S, base) ==
+  LET k == Unread(S)
+      r == LexRest(base, S.lex.lines, S.cat, S.elc, S.names) IN
+  [S EXCEPT !.inp = SubSeq(S.inp, 1, Len(S.inp) - k) \o r.toks, !.nsrc = Len(r.toks), !.names = r.names,
+            !.lex = [lines |-> S.lex.lines, toks |-> r.toks, post |-> r.post, lx0 |-> base, done |-> FALSE]]
+\* A request that found no token has still read the file to its end (a comment character behind the number of
+\* \catcode`\%=12 is passed over by the look-ahead, as a comment): nothing is left to read again.
+Relex(S) ==
+  LET k == Unread(S) n == Len(S.lex.post) IN
+  IF S.lex.done THEN S ELSE Fill(S, IF n - k = 0 THEN S.lex.lx0 ELSE S.lex.post[n - k])
+
+\* an invalid character that a scan passed over as part of an argument, a skipped branch or a definition was
+\* reported by TeX when it was read; the model only notices the ones read one by one (GetTok)
+ConsumedIv(S, R) ==
+  LET n == Len(S.lex.toks) k0 == Unread(S) k1 == Unread(R) IN
+  \E i \in (n - k0 + 1)..(n - k1) : S.lex.toks[i].k = "iv"
 
 RECURSIVE Run(_)
 Run(S) ==
   IF Stopped(S) THEN S
   ELSE LET x == GetX(Tick(S)) IN
        IF x.none THEN x.s
-       ELSE Run(Exec(x.s, x, FALSE))
+       ELSE LET R == Exec(x.s, x, FALSE) IN
+            IF Stopped(R) \/ S.lex.lines = << >> THEN Run(R)
+            ELSE IF ConsumedIv(S, R) THEN Skip(R, "skip-invalid-character-inside-a-scan")
+            ELSE IF R.cat # S.cat \/ R.elc # S.elc THEN Run(Relex(R))
+            ELSE Run(R)
 
 Result(prog, fuel) == Run(InitState(prog, fuel))
+\* a run from the characters of the file (texlang starts with \endlinechar=13)
+InitSource(lines, fuel) ==
+  Fill([InitState(<< >>, fuel) EXCEPT !.elc = 13, !.lex = [NoSource EXCEPT !.lines = lines]], LS0)
+ResultOfSource(lines, fuel) == Run(InitSource(lines, fuel))
 =============================================================================
